@@ -19,14 +19,16 @@ for mp in sorted(glob.glob(os.path.join(V, 'seeded', '*', 'meta.json'))):
     else:
         ded = 'all obligations discharged (bounded check alone)'
     rows.append('| `%s` | %s | %s | %s | %s | %s |' % (m['id'], m['breaks_property'], ', '.join(files).replace('mosromgr/', ''), need.replace('|', '/'), how, ded))
-nrow = {r: sum(1 for x in rows if x.startswith('| `' + ('C' if r == 1 else 'R%d' % r))) for r in (1, 2, 3)}
+nrow = {r: sum(1 for x in rows if x.startswith('| `' + ('C' if r == 1 else 'R%d' % r))) for r in (1, 2, 3, 4)}
 txt = '''## 10. Seeded changes and which checks catch them
 
-%d property-breaking changes were written by independent sub-agents in three rounds (%d + %d + %d), each agent given
+%d property-breaking changes were written by independent sub-agents in four rounds (%d + %d + %d + %d), each agent given
 only the text of a few properties and its own scratch worktree (nothing from /verif).  Round 1 asked for realistic
 single-site slips, round 2 for subtle / cooperating changes (two sites that each look fine, state reached by an
 earlier merge, particular relative positions), round 3 for plain-logic slips in simple code (wrong variable, `<`
-vs `<=`, a check moved after the first mutation, a dropped clause).  Each change is confirmed by
+vs `<=`, a check moved after the first mutation, a dropped clause), round 4 for slips in the less obvious places
+(helpers of `utils/xml.py`, `MosElement`, the `MosFile` base class, readers, collection, S3, CLI, `inspect()`).  Each
+change is confirmed by
 `tools/try_seeded_par.py` (round 1 first with `tools/try_seeded.py` on `/repo` itself): the patch applies to a
 scratch copy of `/repo`'s HEAD, the unedited test suite still passes there (196), the author's demonstration exits
 0 without and non-zero with the change, and the quick check of the broken property is run against the copy
@@ -78,18 +80,40 @@ What the misses of each round exposed, and what was strengthened:
   after the roDelete in a collection, S3 keys whose byte order is not the message-id order, stories timed by
   exactly one of TextTime / MediaTime in merges, `MosCollection.completed` before / after / after an aborted merge.
 
+* Round 4 (17 of 20 caught at first; 10 by failed obligations, 10 as tool limits).  The three misses were tool
+  limits (slice assignment, a new helper loop, `ElementTree(...).write`) without a scenario in the stand-in: a
+  roStorySend with an empty / whitespace-only `storyBody` (`R4A_3`); a running order that itself holds a story or
+  item with a blank ID, against blank / unknown / existing references of every message kind (`R4B_3`: a blank
+  reference must never resolve to it); a carriage return in the merged text written with `-o` (`R4D_4`).
+  `R4C_1` (`from_string` strips the text first) failed 278 obligations but had no concrete input at first:
+  documents with white space, BOM, NBSP and blank lines before / after the root or the XML declaration added.
+
 | id | breaks | file | needs to manifest | caught by | deductive part alone |
 |---|---|---|---|---|---|
 %s
 
-Semantics-preserving refactors used as false-alarm tests (`tools/try_refactor.py selftest/refactors/r*.py`):
-renaming locals of `StoryInsert.merge` and `EAStoryMove.merge`, `replace_node` instead of remove+insert in
-`StorySend.merge`, a conditional expression for the index adjustment of `StoryMove.merge`, inverted nesting in
-`find_child`, swapped branches with `continue` in `StoryDelete.merge`, a counted instead of listed roDelete check
-in `_validate`, separate `ifs` in `_get_story_duration`, `list(parent).index(node)` instead of the index returned
-by `find_child`, `Element.insert` instead of `insert_node`: all 10 leave every check at exit 0, and all are still
-*proved* (no tool limit) - contract binding is name-free (`contracts/roles.py`).
-''' % (len(rows), nrow[1], nrow[2], nrow[3], len(rows), '\n'.join(rows))
+False-alarm tests.  (a) Ten hand-written semantics-preserving refactors (`tools/try_refactor.py
+selftest/refactors/r*.py`): renamed locals, `replace_node` instead of remove+insert, a conditional expression for an
+index adjustment, inverted nesting in `find_child`, swapped branches with `continue`, a counted instead of listed
+check in `_validate`, separate `if`s in `_get_story_duration`, `list(parent).index(node)`, `Element.insert` instead
+of `insert_node`: every check stays at exit 0 and every function stays *proved*.  (b) 24 behaviour-preserving
+refactors written by four further sub-agents (`refactors/RF?_n/`: patch.diff, the author's argument and a
+differential test whose digest is equal with and without the change), run by `tools/try_refactor_par.py` against the
+quick check of *every* property that depends on a changed function (between 3 and 15 checks per refactor):
+**no check raised an alarm**.  On the first run 8 of the 24 lost the proof of a function (tool limit, the bounded
+check decided, exit 0): three bindings were still by local-variable name (`t` / `story_offsets` in
+`_get_story_offsets`, `files` in `get_mos_files`, the `enumerate(..., start=)` form of the replace loops) and are
+now by role (`contracts/roles.py`: the one int / number / dict / list local the loop modifies; hand-kept counters
+get the invariant `counter_follows_the_iteration`); comprehensions written out as `acc = []; for x in xs: [if c:
+continue] acc.append(e)` created loops without an invariant - such *accumulator loops* are now executed as the
+comprehension they spell (engine, `Executor.accumulator_loop`; only when the accumulator is initialised empty just
+before the loop, the body is straight-line with pure temporaries and the loop variable is not read afterwards).
+After that, on the second run (209 check runs over the 24 refactors), no check raises an alarm and 23 of the 24
+keep every function proved; `RFC_5` (a loop with `extend` instead of `chain.from_iterable` in `RunningOrder.script`) stays a
+tool limit in three checks.  What remains out of reach by design: a refactor that introduces a
+genuinely new loop (e.g. `extend` in a loop instead of `chain.from_iterable`) needs a new invariant; the function is
+then reported as a tool limit and decided by the bounded check only.
+''' % (len(rows), nrow[1], nrow[2], nrow[3], nrow[4], len(rows), '\n'.join(rows))
 p = os.path.join(V, 'DESIGN.md')
 s = open(p).read()
 a = s.index('## 10. Seeded changes and which checks catch them')
